@@ -130,12 +130,28 @@ def facts():
         raise ParseFailure("entities/mod.rs: Batch::new / new_unchecked")
     nb = norm(new[0][1])
     f["batch_new_asserts_check_len_first"] = nb.startswith("assert!(entities.check_len());") and "new_unchecked(entities)" in nb
-    f["batch_new_unchecked_is_unsafe"] = all("unsafe" in q for q, _ in unchecked)
+    # every function that writes a Batch literal, other than through Batch::new, is `unsafe`
+    lit = [(q, n) for q, n, b in fns if re.search(r"\bSelf\s*\{\s*(len\b|entities\s*,\s*len\b)", b) or re.search(r"\bBatch\s*\{\s*(len\b|entities\s*,\s*len\b)", b)]
+    f["batch_new_unchecked_is_unsafe"] = bool(lit) and all("unsafe" in q for q, _ in lit) and all("unsafe" in q for q, _ in unchecked)
     f["batch_len_is_first_column"] = "len:entities.component_len()," in norm(unchecked[0][1])
-    # no other public safe constructor of Batch: struct literal sites of Batch
-    lit = [n for q, n, b in fns if re.search(r"\bSelf\s*\{\s*len\b", b) or re.search(r"\bBatch\s*\{\s*len\b", b)]
-    f["batch_literal_sites"] = sorted(set(lit))
-    f["only_new_unchecked_builds_batch"] = sorted(set(lit)) == ["new_unchecked"]
+    f["batch_literal_sites"] = sorted(set(n for _, n in lit))
+    f["only_new_unchecked_builds_batch"] = "new_unchecked" in f["batch_literal_sites"] and \
+        set(f["batch_literal_sites"]) <= {"new_unchecked", "new_unchecked_with_len"}
+    # a batch without columns carries its number of rows (finding F5): the constructor taking the length exists, the
+    # macro arms without a column to read the length off pass the number of rows written, World::extend passes the
+    # batch's length on to the canonical batch and Archetype::extend uses it
+    with_len = [norm(b) for q, n, b in fns if n == "new_unchecked_with_len" and "unsafe" in q]
+    wm = norm(strip_comments(read("src/world/mod.rs")))
+    am = norm(strip_comments(read("src/archetype/mod.rs")))
+    mac = norm(strip_comments(e))
+    f["batch_carries_row_count"] = (
+        len(with_len) == 1 and with_len[0] == "Self{entities,len}"
+        and "((); $n:expr)=>{unsafe{$crate::entities::Batch::new_unchecked_with_len($crate::entities::Null,$n)}};".replace(" ", "") in mac
+        and "$crate::entities::Batch::new_unchecked_with_len($crate::entities!(@transpose[]$(($($components),*)),+),<[()]>::len(&[$($crate::entities!(@unit$($components),*)),+]),)" in mac
+        and "(@unit$($components:expr),*)=>{()};" in mac
+        and "letlength=entities.len();" in wm
+        and "entities::Batch::new_unchecked_with_len(Registry::canonical(entities.entities),length)" in wm
+        and "letcomponent_len=entities.len();" in am and "entities.entities.component_len()" not in am)
     # ---- Length impls
     l = read("src/entities/sealed/length.rs")
     lf = [(n, norm(b)) for q, n, b in fn_bodies(l)]
@@ -239,7 +255,7 @@ def emit(f):
               "new_calls_with_resources", "with_resources_calls_from_raw_parts", "default_calls_checked_ctor",
               "deserialize_calls_from_raw_parts", "assert_null_is_noop", "assert_cons_inserts_then_recurses",
               "batch_new_asserts_check_len_first", "batch_new_unchecked_is_unsafe", "batch_len_is_first_column",
-              "only_new_unchecked_builds_batch", "len_null", "len_cons",
+              "only_new_unchecked_builds_batch", "batch_carries_row_count", "len_null", "len_cons",
               "world_send_needs_components_send", "world_sync_needs_components_sync", "iter_send_needs_views_send",
               "entries_send_needs_views_send", "parview_ref_needs_sync", "parview_mut_needs_send", "parviews_need_send",
               "world_entry_query_borrows_receiver", "entries_entry_query_borrows_receiver", "world_query_borrows_receiver",
@@ -251,6 +267,7 @@ def emit(f):
               "de_column_returns_owned_vec",
               "clear_sets_length_first", "adopt_requires_no_allocation",
               "remove_defers_drops", "remove_decrements_length_first", "remove_frees_identifier_first",
+              "entry_remove_drops_last",
               "clone_from_hides_rows_first", "clone_from_writes_back_on_unwind", "clone_from_identifier_column_written_back",
               "world_clone_from_forgets_identifiers_first", "world_clone_from_clears_on_unwind",
               "resource_reshape_indices_per_level",
@@ -459,6 +476,17 @@ def order_facts():
     i_wlen = b.find("self.len-=1;")
     i_row = b.find(".remove_row_unchecked(location.index,&mutself.entity_allocator)")
     f["remove_frees_identifier_first"] = 0 <= i_free < i_wlen < i_row
+    # --- Entry::remove: the detached component is dropped after the row has its new home and the location is updated
+    en = read("src/world/entry.rs")
+    bs = [norm(b) for q, n, b in fn_bodies(en) if n == "remove" and "push_from_buffer_skipping_component" in b]
+    if len(bs) != 1:
+        raise ParseFailure("world/entry.rs: Entry::remove")
+    b = bs[0]
+    i_push = b.find("archetype.push_from_buffer_skipping_component::<Component>(")
+    i_loc = b.find(".modify_location_unchecked(entity_identifier,location);")
+    i_self = b.find("self.location=location;")
+    i_drop = b.find("drop(unsafe{current_component_bytes.as_ptr().add(offset)")
+    f["entry_remove_drops_last"] = 0 <= i_push < i_loc < i_self < i_drop and b.count("drop(unsafe{") == 1
     # --- clone_from (findings F8c, F11)
     ac = read("src/archetype/impl_clone.rs")
     bs = [norm(b) for q, n, b in fn_bodies(ac) if n == "clone_from"]
@@ -535,10 +563,14 @@ def macro_facts():
     f["entities_macro_evaluates_size_once"] = ok
     # the other arms that reach new_unchecked: the transposition (rectangular by the macro pattern itself) and the two
     # component-less ones (no column at all)
-    others = [a for a in unchecked if a not in cloned]
+    # the other arms that build a batch: the transposition (rectangular by the macro pattern itself) and the two
+    # component-less ones (no column at all); since the repair of F5 the transposing arm and `((); n)` pass the
+    # number of rows along (new_unchecked_with_len)
+    with_len = [a for a in arms if "new_unchecked_with_len(" in a]
+    others = [a for a in unchecked if a not in cloned] + with_len
     f["entities_macro_unchecked_arms_known"] = (len(cloned) == 1 and len(others) == 3
         and sum(1 for a in others if "@transpose[]" in a) == 1
-        and sum(1 for a in others if "new_unchecked($crate::entities::Null)" in a) == 2)
+        and sum(1 for a in others if "new_unchecked($crate::entities::Null)" in a or "new_unchecked_with_len($crate::entities::Null,$n)" in a) == 2)
     return f
 
 
